@@ -73,6 +73,9 @@ type EncOptions struct {
 	PadExact int
 	// ForceLongObject writes every instance in the 'O' int form.
 	ForceLongObject bool
+	// PadSame makes the PadExact padding definitions copies of one and the same definition (a writer that
+	// sends a definition again; every copy takes an index of its own).
+	PadSame bool
 }
 
 type Encoder struct {
@@ -126,6 +129,10 @@ func (e *Encoder) Top(v *av.V) {
 	e.collectPending(v)
 	if e.nclasses == 0 && e.Opt.PadExact > 0 {
 		for i := 0; i < e.Opt.PadExact; i++ {
+			if e.Opt.PadSame {
+				e.writeClassDef("pad.Same", []string{"x", "y"})
+				continue
+			}
 			e.writeClassDef("pad.X"+string(rune('a'+i%26))+string(rune('0'+i/26)), []string{"x"})
 		}
 	}
